@@ -113,7 +113,7 @@ def run(ctx):
         for t0 in ("", "_", "@", "$", "!"):
             for t1 in ("", "_", "@", "$", "!"):
                 for t2 in ("", "_", "@", "$", "!"):
-                    for body0 in ('"<" ~ r1 ~ ">"', 'r1 ~ ("," ~ r1)*', '&r1 ~ r1', '!("q" ~ r1) ~ r1 ~ r1?'):
+                    for body0 in ('"<" ~ r1 ~ ">"', 'r1 ~ ("," ~ r1)*', '&r1 ~ r1', '!("q" ~ r1) ~ r1 ~ r1?', '&(!"q" ~ r1) ~ r1', '&(&r1 ~ r1) ~ r1', '!(!r1 ~ "q") ~ r1'):
                         text = 'r0 = %s{ %s }\nr1 = %s{ r2 ~ ("," ~ r2)* }\nr2 = %s{ "x" ~ ("-" ~ "x")? ~ r3? }\nr3 = { "y" }\nWHITESPACE = _{ " " }\n' % (t0, body0, t1, t2)
                         inputs = ["<x>", "<x-x,x>", "x,x", "x-x", "<x,x y>", "<x, x-xy>", "x", "<xy,xy>", "x,x,x-x", "< x >"]
                         f.write(json.dumps({"text": text, "cases": [{"start": "r0", "inp": [ord(c) for c in i], "exp": {"k": "unknown"}} for i in inputs]}) + "\n")
